@@ -110,7 +110,7 @@ def _seq_job(args):
         ops, mres = g.run(nops)
     finally:
         m.close()
-    trace, dis = replay_sequence(c, ops, mres)
+    trace, dis = replay_sequence(c, ops, True, coredrv)
     alarms = getattr(monitors, monitor_name)(trace) if monitor_name else []
     return {'i': i, 'ops': ops, 'trace': trace, 'dis': dis, 'alarms': alarms}
 
@@ -168,7 +168,9 @@ def run_kapi(c, res, pid, profile, nseq, nops, seed, monitor_name, userpins=True
     return stats, samples
 
 
-def replay_sequence(c, ops, mres):
+def replay_sequence(c, ops, mres, coredrv=None):
+    """run ops on the real library; when mres is True, replay the model with the registration-order
+    oracle taken from the real trace (DESIGN.md 2.4) and compare"""
     d = vlib.mktmp()
     try:
         conf = vlib.write_conf(d)
@@ -178,6 +180,18 @@ def replay_sequence(c, ops, mres):
     real = [r for r in real if r.get('op') != 'EXIT']
     trace = list(zip(ops, real))
     dis = {'first': None, 'compared': 0, 'unmodelled': False}
+    if mres is True:
+        m = kapi.Model(coredrv)
+        m.prios = kapi.registration_oracle(ops, real)
+        try:
+            mres = []
+            for line in ops:
+                mr = m.step(line)
+                mres.append(mr)
+                if mr.get('unmodelled'):
+                    break
+        finally:
+            m.close()
     if mres is not None:
         for j, (line, mr) in enumerate(zip(ops, mres)):
             if mr.get('unmodelled'):
@@ -243,7 +257,22 @@ def check_C03(res, tier, seed):
     finish_proof_side(c, res, 'C03')
 
 
-CHECKS = {'C03': check_C03}
+def kapi_check(pid, profile, monitor_name, rule, nq=400, nt=12000, nops=45):
+    def f(res, tier, seed):
+        c = prepare(pid, res)
+        n = nq if tier == 'quick' else nt
+        stats, samples = run_kapi(c, res, pid, profile, n, nops if tier == 'quick' else nops + 20, seed, monitor_name)
+        res.coverage.update({'evaluations': stats['ops'], 'distinct_nontrivial': stats['distinct_traces'], 'rule': rule,
+                             'samples': samples, 'k_api': stats, 'traces_validated_against_impl': stats['sequences']})
+        finish_proof_side(c, res, pid)
+    return f
+
+
+RULE = 'model-guided random call sequences over 2 tokens and up to ~8 sessions (%s profile of tools/genapi.py); a trace is non-trivial when at least 3 calls after the prelude succeed; distinct = distinct (op, rv) sequences'
+CHECKS = {'C03': check_C03,
+          'C01': kapi_check('C01', 'objects', 'monitor_c01', RULE % 'objects'),
+          'C11': kapi_check('C11', 'handles', 'monitor_c11', RULE % 'handles'),
+          'C19': kapi_check('C19', 'find', 'monitor_c19', RULE % 'find')}
 
 
 def main():
